@@ -3,7 +3,7 @@ from itertools import permutations
 
 from .. import bootstrap  # noqa: F401
 from ..core import digest_of
-from ..gen import gen_e1
+from ..gen import gen_e1, gen_e1_long
 from ..monitor import run_e1
 from ..findings import e1_known_sig, any_shared_pull, SHARED
 
@@ -60,6 +60,16 @@ def generate(tape, tier="quick"):
         n, m = len(sc["components"]), len(sc["links"])
         sc["fault"], sc["conv"] = None, False
         sc["perms"] = [[tape.shuffle(list(range(n))), tape.shuffle(list(range(m)))] for _ in range(5)]
+        sc["listing"], sc["link_order"] = list(range(n)), list(range(m))
+        return sc
+    if tape.chance(1, 100):
+        # a long series of components, each reading its upstream neighbour while connecting: the number of connect
+        # passes depends on the listing (N+1 upstream-first, 2N-1 downstream-first), the outcome must not
+        sc = gen_e1_long(tape, lag=False)
+        n, m = len(sc["components"]), len(sc["links"])
+        sc["fault"], sc["conv"] = None, False
+        sc["perms"] = [[list(range(n))[::-1], tape.shuffle(list(range(m)))], [tape.shuffle(list(range(n))), list(range(m))],
+                       [tape.shuffle(list(range(n))), tape.shuffle(list(range(m)))]]
         sc["listing"], sc["link_order"] = list(range(n)), list(range(m))
         return sc
     sc = gen_e1(tape, tier, allow_delay_push=False, max_sim=4, pull_fanout=False, sorted_diamond=(2, 3), allow_adaptive=False,
